@@ -99,3 +99,92 @@ def run_one(cfg):
 
 def run_batch(cfgs):
     return [run_one(c) for c in cfgs]
+
+
+# ----------------------------------------------------------------------------------------------------------- whole command: file in, trace out
+
+
+@contextlib.contextmanager
+def _quiet_fd():
+    """silence stdout at file-descriptor level: the chain worker processes print through the inherited descriptor"""
+    import os
+    import sys
+
+    sys.stdout.flush()
+    saved = os.dup(1)
+    devnull = os.open(os.devnull, os.O_WRONLY)
+    try:
+        os.dup2(devnull, 1)
+        with contextlib.redirect_stdout(io.StringIO()):
+            yield
+    finally:
+        sys.stdout.flush()
+        os.dup2(saved, 1)
+        os.close(saved)
+        os.close(devnull)
+
+
+def file_runs(tier="quick", seed=0):
+    """phyclone.run.run on input FILES (so the loader, the emission grids and the writer are on the path): small valid tables covering the copy-number
+    corners (minor copy number 0 and > 0, major 1..3, normal 1..2), both densities, clustered and unclustered, one and two chains."""
+    import gzip
+    import os
+    import pickle
+    import shutil
+    import tempfile
+
+    from phyclone.run import run
+    from phyclone.tree import Tree
+
+    rows = [("m0", 20, 10, 2, 0, 2), ("m1", 30, 5, 1, 1, 2), ("m2", 10, 25, 3, 1, 2), ("m3", 40, 1, 2, 2, 2), ("m4", 15, 15, 1, 0, 1)]
+    tmp = tempfile.mkdtemp(prefix="verif_c19_")
+    out = []
+    try:
+        tsv = os.path.join(tmp, "in.tsv")
+        with open(tsv, "w") as fh:
+            fh.write("mutation_id\tsample_id\tref_counts\talt_counts\tmajor_cn\tminor_cn\tnormal_cn\n")
+            for s_i, s in enumerate(("S1", "S2")):
+                for (m, a, b, mj, mn, nc) in rows:
+                    fh.write("%s\t%s\t%d\t%d\t%d\t%d\t%d\n" % (m, s, a + 3 * s_i, b + 2 * s_i, mj, mn, nc))
+        clu = os.path.join(tmp, "clusters.tsv")
+        with open(clu, "w") as fh:
+            fh.write("mutation_id\tcluster_id\n")
+            for m, c in (("m0", 0), ("m1", 0), ("m2", 1), ("m3", 2), ("m4", 2)):
+                fh.write("%s\t%d\n" % (m, c))
+        cfgs = [(d, c, ch, op) for d in ("beta-binomial", "binomial") for c in (None, clu) for ch in (1, 2) for op in (0.0, 0.05)]
+        if tier == "quick":
+            cfgs = [cfgs[i] for i in (0, 3, 5, 6, 9, 12)]
+        for density, cluster_file, chains, op in cfgs:
+            name = "run(file) density=%s clusters=%s chains=%d outlier_prob=%s" % (density, "yes" if cluster_file else "no", chains, op)
+            of = os.path.join(tmp, "trace.pkl.gz")
+            problems = []
+            try:
+                with _quiet_fd():
+                    run(in_file=tsv, out_file=of, burnin=1, cluster_file=cluster_file, density=density, grid_size=21, num_iters=4, num_particles=4, outlier_prob=op, precision=400,
+                        print_freq=1000, seed=seed + 3, num_chains=chains, subtree_update_prob=0.5)
+                with gzip.GzipFile(of, "rb") as fh:
+                    res = pickle.load(fh)
+                n_expected = 3 if cluster_file else len(rows)
+                for c, r in res.items():
+                    for e in r["trace"]:
+                        t = Tree.from_dict(e["tree"])
+                        ps = BE.check_wf(t, set(range(n_expected)))
+                        if ps:
+                            problems.append("chain %s entry %d: %s" % (c, e["iter"], "; ".join(ps[:2])))
+                        if not math.isfinite(e["log_p_one"]):
+                            problems.append("chain %s entry %d: log_p_one = %r" % (c, e["iter"], e["log_p_one"]))
+                    for dp in r["data"]:
+                        if not np.all(np.isfinite(dp.value)):
+                            problems.append("chain %s: the likelihood grid of data point %s is not finite" % (c, dp.name))
+                if len(res) != chains:
+                    problems.append("%d chains written, %d requested" % (len(res), chains))
+            except Exception as e:  # noqa
+                import traceback
+
+                tb = traceback.extract_tb(e.__traceback__)
+                where = "%s:%d" % (tb[-1].filename.split("/")[-1], tb[-1].lineno) if tb else "?"
+                problems.append("raised %r at %s" % (e, where))
+            out.append({"cfg": name, "entries": 0, "problems": problems[:4]})
+    finally:
+        shutil.rmtree(tmp, ignore_errors=True)
+    return out
